@@ -47,6 +47,14 @@ ANI_DISTS = ["NONE", "GAUSSIAN", "GAUSSIAN_SCALED", "GAUSSIAN_TAN_RAD"]
 
 
 # ------------------------------------------------------------------------------------------ recorder
+class NonTermination(Exception):
+    """more random numbers consumed by ONE draw call than any terminating re-draw of the unchanged code can consume
+    (its recursion ends after ~1000 attempts): the call is cut off and reported instead of being waited for"""
+
+
+DRAW_BUDGET = 50000
+
+
 class Recorder:
     """wraps np.random.normal / np.random.uniform; records the standard variates consumed"""
 
@@ -63,6 +71,8 @@ class Recorder:
             if np.any(np.asarray(scale) < 0):
                 raise ValueError("scale < 0")
             z = np.random.standard_normal(size)
+            if len(rec.z) > DRAW_BUDGET and not getattr(rec, "unbounded", False):
+                raise NonTermination("draw call consumed more than %d normal variates" % DRAW_BUDGET)
             if size is None:
                 rec.z.append(float(z))
                 rec.calls.append(("normal", float(loc), float(scale), 1))
